@@ -910,7 +910,7 @@ def slerp(q0: np.ndarray, q1: np.ndarray, t_array: np.ndarray, threshold: float 
     qdot = q0@q1
     # Ensure SLERP takes the shortest path
     if qdot < 0.0:
-        q1 *= -1.0
+        q1 = -1.0*q1
         qdot *= -1.0
     # Interpolate linearly (LERP)
     if qdot > threshold:
